@@ -40,7 +40,7 @@ CHECKS["C06"] = dict(engine="siminst", cat="exploration", tech="deterministic si
    note="operations are atomic in the model (interleaving at operation boundaries); child instances only for variants without shared memory; a generated family, not arbitrary programs", ref="5/C06")
 E2 = "E2 simxl: every w2c2/*.c of the working tree (main renamed w2c2_main) run in a forked child per simulated run on a tmpfs scratch tree; pthread pool under the simcore baton scheduler (preemption at sync ops, I/O calls, instrumented loads/stores), simulated CPU count/exit, fopen/fclose faults, record-and-refuse monitor on mutating libc calls; clang ASan + memory-related UBSan checks"
 CHECKS.update({
- "C09": dict(engine="simxl", cat="exploration", tech="deterministic simulation: seeded schedules of the producer/worker pool (random walk + PCT, spurious wake-ups, thread-create failures) with byte-for-byte comparison of every output set against the unpreempted single-thread run; auxiliary compile and spec-assert behaviour samples for option variants",
+ "C09": dict(engine="simxl", cat="exploration", tech="deterministic simulation: seeded schedules of the producer/worker pool (random walk + PCT, spurious wake-ups, thread-create failures) with byte-for-byte comparison of every output set against the unpreempted single-thread run; auxiliary compile and spec-assert behaviour samples for option variants, token identity of pretty and compact output for every corpus and spec module",
    text="The translator's worker pool runs under the seeded scheduler for every sampled (module, option combination, output path): termination, exit status, the exact output file-name set and byte-identity of all files with the canonical '-t 1' unpreempted run decide schedule/thread-count independence. Because option equivalence of behaviour is not a schedule property, a stratified sample of canonical outputs is additionally compiled file-by-file and spec-suite modules are built and executed under 7 option variants (pretty, -f, -g, -m, gnu-ld, threads) with their assert transcripts compared to the default build.",
    note="interleavings are sequentially consistent; behaviour equivalence across options is sampled (not simulated): 6 modules quick / 80 thorough, stratified by data-segment shape; build-configuration variants (no pthreads, bundled getopt/libgen) are not part of the quick tier", ref="5/C09"),
  "C10": dict(engine="simxl", cat="fault_enumeration", tech="deterministic simulation with torn-input fault enumeration: every run serves only the first k bytes of a valid module (k sampled; exhaustive for small modules in the thorough tier) under a seeded option/schedule swarm, ASan/UBSan-memory as oracle",
@@ -55,7 +55,7 @@ CHECKS.update({
 E3 = "E3 simwasi: wasi/wasi.c + generated 'wasihost' forwarder module (translated by the current translator) in a forked child per run on a tmpfs tree; reference = the same POSIX operations on a mirror tree; simulated clock/entropy/exit/thread scheduling; fault points at open/readv/writev/lseek/opendir/readdir; clang ASan + memory UBSan"
 CHECKS.update({
  "C12": dict(engine="simwasi", cat="exploration", tech="deterministic simulation: seeded WASI call histories with injected short transfers/EINTR/EIO/ENOSPC/lseek failures, checked operation-by-operation against the real kernel driven directly on a mirror tree (reference model)",
-   text="Histories of path_open/fd_write/fd_pwrite/fd_read/fd_pread/fd_seek/fd_tell/fd_filestat_get/fd_close through the exact C ABI generated code uses, in both ABI name spaces; after every operation errno, counts, 64-bit offsets, filestat fields, delivered bytes and the native file position must equal those of the corresponding POSIX call on the mirror, and the trees must be equal at the end. Under an injected fault the operation may report the fault or the short count, never other data or a moved position after positional I/O. Concurrent phases: 2-3 simulated tasks are inside the host at the same time, each reading/writing/seeking its own file (interleaved at every instrumented access and libc call), each call judged against the same call on the mirror.",
+   text="Histories of path_open/fd_write/fd_pwrite/fd_read/fd_pread/fd_seek/fd_tell/fd_filestat_get/fd_close through the exact C ABI generated code uses, in both ABI name spaces; after every operation errno, counts, 64-bit offsets, filestat fields, delivered bytes and the native file position must equal those of the corresponding POSIX call on the mirror, and the trees must be equal at the end. Under an injected fault the operation may report the fault or the short count, never other data or a moved position after positional I/O. Build variants: default, bundled strndup / no getentropy, and no <sys/uio.h> (the host's own readv/writev over read()/write(), with faults injected per segment and a prefix oracle). Concurrent phases: 2-3 simulated tasks are inside the host at the same time, each reading/writing/seeking its own file (interleaved at every instrumented access and libc call), each call judged against the same call on the mirror.",
    note="reference is the Linux kernel (pwritev/preadv/lseek/fstat); O_APPEND+pwrite, IOV_MAX and error precedence are excluded as POSIX-ambiguous", ref="5/C12"),
  "C13": dict(engine="simwasi", cat="exploration", tech="deterministic simulation: seeded descriptor-churn histories (open/close storms, double close, closed and never-issued numbers in every implemented call of both ABIs) with EMFILE injection, descriptor-table model + host-call log + ASan as oracles",
    text="A model of the descriptor table (live set, pre-opens, stdio) decides: path_open never returns a live number, dead numbers give EBADF in all 23 implemented descriptor-taking calls and reach no host call, pre-opens report their registered path, descriptors 1/2/0 reach host fds 1/2/0; AddressSanitizer reports (double free, use after free of the descriptor path) are violations of this property.",
